@@ -25,6 +25,16 @@ typedef bool boolean;
 #define A3 17
 #define A4 18
 #define A5 19
+#define A6 20
+#define A7 21
+#define A8 22
+#define A9 23
+#define A10 24
+#define A11 25
+#define A12 26
+#define A13 27
+#define A14 28
+#define A15 29
 #define F(s) (s)
 // live heap blocks of the sketch (array new / delete, as the list helpers use them): reported as H:<live> at every pass
 namespace fwsim { inline long &live_blocks() { static long n = 0; return n; } }
